@@ -321,7 +321,7 @@ def weave_function(src_fn, spec, path, W, opts, meta):
             skip = set(x[1:] for x in parts_[1:] if x.startswith("-"))
             for c2 in list(spec.clauses):
                 if c2.kind == "inv" and c2.arg == src_loop and (c2.name or "") not in skip and not (c2.name or "").startswith("inherited-"):
-                    spec.clauses.append(Clause("inv", c.arg, [], "inherited-%d-%s" % (src_loop, c2.name), c2.body, c2.src))
+                    spec.clauses.append(Clause("inv", c.arg, list(c2.tags), "inherited-%d-%s" % (src_loop, c2.name), c2.body, c2.src))
         loop_ids = sorted(set(c.arg for c in spec.clauses
                               if c.kind in ("loop", "inv", "invxb", "loopensures", "loopdec", "body-start",
                                             "body-end")))
